@@ -30,7 +30,7 @@ type C07Case struct {
 }
 
 var c07Once sync.Once
-var c07DataDir string // real directory (files are created there)
+var c07DataDir string                       // real directory (files are created there)
 const c07Data = tmpPlaceholder + "/c07data" // how generated text refers to it
 
 func c07Setup() {
@@ -307,10 +307,10 @@ var c07DirArgs = map[string][]string{
 	"secresponsebodymimetype": {"text/plain", "text/plain text/html", ""}, "secresponsebodymimetypesclear": {""}, "seccomponentsignature": {"\"comp/1.0 (x)\"", "x"},
 	"secwebappid": {"app", ""}, "secserversignature": {"srv"}, "secsensorid": {"s1"}, "secmarker": {"M1", "'M1'", "", "ABSENT"},
 	"secruleremovebyid": {"1", "1 2", "1-3", "3-1", "abc", "", "1-", "1 2-4 7"}, "secruleremovebytag": {"t1", "", "'t1'"}, "secruleremovebymsg": {"m1", "", "no such"},
-	"secruleupdatetargetbyid": {"1 ARGS:a", "1 !ARGS:a", "1 2 \"ARGS\"", "1-3 !ARGS:/a/", "1", "abc ARGS", "1 bogus", "1 \"!REQUEST_HEADERS:x|ARGS_NAMES\"", "99 ARGS"},
+	"secruleupdatetargetbyid":  {"1 ARGS:a", "1 !ARGS:a", "1 2 \"ARGS\"", "1-3 !ARGS:/a/", "1", "abc ARGS", "1 bogus", "1 \"!REQUEST_HEADERS:x|ARGS_NAMES\"", "99 ARGS"},
 	"secruleupdatetargetbytag": {"t1 ARGS:a", "t1 !ARGS", "t1", "t1 bogus"}, "secruleupdatetargetbymsg": {"m1 ARGS:a", "m1"},
 	"secruleupdateactionbyid": {"1 \"deny,status:403\"", "1 \"pass\"", "1-3 \"nolog\"", "1 2 \"t:none\"", "1", "abc \"pass\"", "1 \"id:9\"", "1 \"phase:3\"", "1 \"bogus\"", "99 \"pass\"", "1 \"setvar:tx.a\""},
-	"secargumentseparator": {"&", ";", "ab", ""}, "seccookieformat": {"0", "1", "x"}, "secunicodemap": {"20127", "x"},
+	"secargumentseparator":    {"&", ";", "ab", ""}, "seccookieformat": {"0", "1", "x"}, "secunicodemap": {"20127", "x"},
 	"secremoterules": {"key https://example.invalid/rules"}, "secremoterulesfailaction": {"Abort", "Warn", "x"},
 }
 
